@@ -10,6 +10,7 @@ use crate::gen::*;
 
 pub fn group(tr: &mut Tracer, rng: &mut StdRng, core: &str, exp: i64, neg: bool, max_pad: usize) {
     // value = core * 10^exp, core without trailing zeros; representations: (core * 10^k, scale = k - exp)
+    tr.reserve(120);
     tr.emit(json!({"op": "reset"}));
     let mut reps: Vec<Value> = vec![];
     let mut pads: Vec<usize> = vec![0, 1, 2, 3];
